@@ -1,0 +1,48 @@
+//go:build verif
+
+package util
+
+import (
+	"fmt"
+	"sort"
+)
+
+// VerifRangeOrder, when set by a simulation harness, decides the order in which
+// Map.Range visits the entries (sync.Map iteration order is otherwise
+// unspecified and not reproducible). It receives the keys rendered as strings in
+// sorted order and returns the visiting order as indexes into that slice.
+// Never set in production builds (this file needs -tags verif).
+var VerifRangeOrder func(sortedKeys []string) []int
+
+func verifRange[K comparable, V any](m *Map[K, V], f func(key K, value V) bool) (handled bool, all bool) {
+	order := VerifRangeOrder
+	if order == nil {
+		return false, false
+	}
+	type kv struct {
+		k K
+		v V
+		s string
+	}
+	var items []kv
+	m.m.Range(func(key, value any) bool {
+		items = append(items, kv{key.(K), value.(V), fmt.Sprint(key)})
+		return true
+	})
+	sort.Slice(items, func(i, j int) bool { return items[i].s < items[j].s })
+	keys := make([]string, len(items))
+	for i, it := range items {
+		keys[i] = it.s
+	}
+	all = true
+	for _, idx := range order(keys) {
+		if idx < 0 || idx >= len(items) {
+			continue
+		}
+		if !f(items[idx].k, items[idx].v) {
+			all = false
+			break
+		}
+	}
+	return true, all
+}
